@@ -669,9 +669,10 @@ def baseline(ctx, sc):
         n = len(index_entries(cd))
         ids = problem_ids(tree.root, r["lines"])
         shutil.rmtree(base, ignore_errors=True)
-        # model entries of that run: w, d, b vetx (3) + a (2) + at (2) [+ am (2) unless it failed]
-        own = 9 if go == "module" else 7
-        want = {"a.st1001", "a.sa4023", "a.sa1019d", "a.test"} | ({"std.compile"} if go == "old" else set())
+        # model entries of that run: w, d, b vetx (3) + a (2) + at (2) + am (2); -go applies only to the
+        # packages named on the command line (68d8d5d), so the std closure type-checks under -go 1.3 too
+        own = 9
+        want = {"a.st1001", "a.sa4023", "a.sa1019d", "a.test"}
         return go, n - own, ids == want, sorted(ids)
 
     results = vlib.pmap(one, BASELINE, workers=8)
